@@ -6,9 +6,9 @@ import (
 )
 
 // Scenario generator for the command-level properties.  One generator, steered by a
-// profile (weights) per property suite.
+// scnProfile (weights) per property suite.
 
-type profile struct {
+type scnProfile struct {
 	name                                               string
 	cmds                                               []string // weighted command pool
 	pFault, pCrash, pPretend, pUsers, pForce           int      // percent
@@ -139,7 +139,7 @@ func hostTable(g *Gen, variants bool) []interface{} {
 	return t
 }
 
-func genLayerTree(g *Gen, t *treeB, l glayer, pf profile, sloppy bool) {
+func genLayerTree(g *Gen, t *treeB, l glayer, pf scnProfile, sloppy bool) {
 	lp := VB + "/layers/" + l.name
 	t.dir(lp)
 	t.file(lp+"/layerconfig", l.config())
@@ -189,7 +189,7 @@ func genLayerTree(g *Gen, t *treeB, l glayer, pf profile, sloppy bool) {
 	}
 }
 
-func genForest(g *Gen, pf profile) []glayer {
+func genForest(g *Gen, pf scnProfile) []glayer {
 	n := g.Intn(6)
 	names := append([]string(nil), legalNames...)
 	g.Shuffle(len(names), func(i, j int) { names[i], names[j] = names[j], names[i] })
@@ -216,7 +216,7 @@ func genForest(g *Gen, pf profile) []glayer {
 	return ls
 }
 
-func genScenario(g *Gen, pf profile) Case {
+func genScenario(g *Gen, pf scnProfile) Case {
 	t := &treeB{ents: map[string][]interface{}{}}
 	for _, h := range []string{"/", "/dev", "/proc", "/sys", "/run"} {
 		t.ents[h] = []interface{}{hx(h), "d"}
@@ -354,7 +354,7 @@ var structuralCmds = []string{"add", "add", "add", "remove", "remove", "rename",
 var mountCmds = []string{"mount", "mount", "mount", "umount", "umount", "chroot", "shake", "mkdirs", "add", "probe"}
 var allCmds = append(append([]string{"init"}, structuralCmds...), mountCmds...)
 
-var profiles = map[string]profile{
+var profiles = map[string]scnProfile{
 	"scn-mixed":  {name: "scn-mixed", cmds: allCmds, pFault: 10, pCrash: 5, pPretend: 10, pUsers: 20, pForce: 5, pIncomplete: 15, pWeirdImport: 8, pForeignExport: 10, minSteps: 3, maxSteps: 9, hostVariants: true},
 	"scn-struct": {name: "scn-struct", cmds: structuralCmds, pUsers: 10, pIncomplete: 10, pWeirdImport: 3, pForeignExport: 10, minSteps: 4, maxSteps: 10},
 	"scn-mount":  {name: "scn-mount", cmds: mountCmds, pUsers: 15, pForce: 5, pIncomplete: 10, pWeirdImport: 5, pForeignExport: 5, minSteps: 4, maxSteps: 10, hostVariants: true},
